@@ -27,12 +27,17 @@ MODELLED_NOT_VERIFIED = [
     "implementation only (oracle), not modelled; a parsed CHARACTERS/SETS block is a statement skeleton in the model",
     "C13: one taxon namespace per call in the model (documents with at most one TAXA block); case-sensitive namespaces and non-ASCII labels are not modelled",
 ]
-EXPLANATION = ("Theorems (Props/C13.lean): reader_eq_yielder and newick_reader_eq_yielder (the separately written yielder loops deliver exactly "
-               "the concatenation of the reader's blocks, same namespace, same errors), incremental_eq_whole (reading into an existing list = "
-               "existing ++ what a fresh read delivers), whole_eq_flatten / dataset_eq_lists (one list or a data set = the blocks in order), "
-               "offset_spec / offset_list_spec (Tree.get and TreeList.get offsets pick exactly blocks[c][k] / blocks[c][k:]), tree_get_keeps_name, "
-               "source_dispatch_irrelevant. reader_eq_yielder is stated for equal reader settings; the attached-namespace difference of the "
-               "yielder is covered by attached_irrelevant for documents whose namespace lookups succeed.")
+EXPLANATION = ("Theorems (Props/C13.lean, about the definitions drv_c13 runs; the shared tree-statement parser is never unfolded): "
+               "newick_reader_eq_yielder and trees_block_reader_eq_yielder (the separately written yielder loops deliver exactly what the reader "
+               "loops put into one list: same trees, order, namespace, errors; unconditional), reader_eq_yielder_partial (whole NEXUS stream; "
+               "partial: documents whose block loop meets no SETS/ASSUMPTIONS/CODONS block, same `attached` flag on both sides), "
+               "whole_eq_flatten (TreeList.get = the collections concatenated), incremental_eq_whole (read into an existing list = existing ++ "
+               "fresh read), incremental_collection, dataset_eq_lists_partial (partial: same exclude_chars on both sides), offset_spec / "
+               "offset_neg_spec / offset_default / offset_list_spec / offset_list_default / offsets_enumerate_whole (offsets pick exactly "
+               "blocks[c][k] resp. blocks[c][k:], Python negative indices included), tree_get_label (label= renames, nothing else; without it the "
+               "source's name is kept). Generated documents avoid three input classes that are proposed as known findings (several TAXA blocks "
+               "through TreeList.get; a TAXA block read into a namespace holding other taxa; taxon numbers read into a pre-populated namespace): "
+               "their stored witnesses are replayed on every run once listed in known_findings.json.")
 
 ROUTE_TIMEOUT = 20
 
@@ -100,6 +105,22 @@ def first_diff(a, b, path="tree"):
             if x != y:
                 return first_diff(x, y, "%s[%d]" % (path, i))
     return "%s: %r vs %r" % (path, a, b)
+
+
+def strip_ident(rec):
+    def go(n):
+        return [None if n[0] is None else [n[0][0], None]] + n[1:6] + [[go(c) for c in n[6]]]
+    return dict(rec, root=go(rec["root"]))
+
+
+def classify(a, b):
+    """which clause two differing tree records violate: only the taxon objects differ (same labels), only the tree's name, or more"""
+    if isinstance(a, dict) and isinstance(b, dict):
+        if strip_ident(a) == strip_ident(b):
+            return "taxon-identity"
+        if dict(a, name=None) == dict(b, name=None):
+            return "tree-name"
+    return "route"
 
 
 def err_name(e):
@@ -284,7 +305,7 @@ class Case(object):
             return False
         for i, (a, b) in enumerate(zip(got, want)):
             if a != b:
-                self.fail("route", route, "tree %d differs from %s: %s" % (i, against, first_diff(a, b)), **extra)
+                self.fail(classify(a, b), route, "tree %d differs from %s: %s" % (i, against, first_diff(a, b)), **extra)
                 return False
         return False
 
@@ -346,23 +367,23 @@ def check_tree_routes(ctx, dendropy, doc, mode, tmpdir, full=True):
             name = "Tree.get(collection_offset=%d, tree_offset=%d)" % (c, k)
             got = case.attempt(name, lambda: R.tree(how, collection_offset=c, tree_offset=k), coll=c, tree=k)
             if got is not None and got != want:
-                case.fail("route", name, "differs from tree %d of collection %d of the data set: %s" % (k, c, first_diff(got, want)), coll=c, tree=k)
+                case.fail(classify(got, want), name, "differs from tree %d of collection %d of the data set: %s" % (k, c, first_diff(got, want)), coll=c, tree=k)
             if full and (c + k) % 3 == 0:
                 cn, kn = c - len(blocks), k - len(bl)
                 name = "Tree.get(collection_offset=%d, tree_offset=%d)" % (cn, kn)
                 got = case.attempt(name, lambda: R.tree("data", collection_offset=cn, tree_offset=kn), coll=cn, tree=kn)
                 if got is not None and got != want:
-                    case.fail("route", name, "differs from tree %d of collection %d: %s" % (k, c, first_diff(got, want)), coll=cn, tree=kn)
+                    case.fail(classify(got, want), name, "differs from tree %d of collection %d: %s" % (k, c, first_diff(got, want)), coll=cn, tree=kn)
     nonempty = [bl for bl in blocks if bl]
     if blocks and blocks[0]:
         got = case.attempt("Tree.get()", lambda: R.tree("data"))
         if got is not None and got != blocks[0][0]:
-            case.fail("route", "Tree.get()", "differs from the first tree of the source: %s" % first_diff(got, blocks[0][0]))
+            case.fail(classify(got, blocks[0][0]), "Tree.get()", "differs from the first tree of the source: %s" % first_diff(got, blocks[0][0]))
         got = case.attempt("Tree.get(label=)", lambda: R.tree("data", label="given"))
         if got is not None:
             want = dict(blocks[0][0], name="given")
             if got != want:
-                case.fail("route", "Tree.get(label=)", "differs from the first tree renamed: %s" % first_diff(got, want))
+                case.fail(classify(got, want), "Tree.get(label=)", "differs from the first tree renamed: %s" % first_diff(got, want))
     # sub-lists by offsets
     for c, bl in enumerate(blocks):
         name = "TreeList.get(collection_offset=%d)" % c
@@ -459,15 +480,43 @@ def check_tree_array(case, dendropy, R, src, schema, opts, ref):
         want = split_table_from_tree(tree)
         got = split_table_from_array(ta, i, bool(tree.is_rooted))
         if got != want:
-            case.fail("route", "TreeArray.read", "split/length record of tree %d differs from the tree read by TreeList.get "
-                      "(%d vs %d splits; first difference %s)" % (i, len(got), len(want),
-                                                                 sorted([(sorted(map(str, k)) if not isinstance(next(iter(k), None), frozenset) else "bip", str(v))
-                                                                         for k, v in (set(got.items()) ^ set(want.items()))], key=str)[:1]))
+            names = {}
+            for tx in list(ta.taxon_namespace._taxa) + [nd.taxon for nd in tree.leaf_node_iter() if nd.taxon is not None]:
+                names[id(tx)] = tx.label
+
+            def show(key):
+                if key and isinstance(next(iter(key)), frozenset):
+                    return sorted(sorted(str(names.get(x, "?")) for x in part) for part in key)
+                return sorted(str(names.get(x, "?")) for x in key)
+            diff = sorted(((show(k), str(v)) for k, v in (set(got.items()) ^ set(want.items()))), key=str)[:2]
+            case.fail("route", "TreeArray.read", "split/length record of tree %d differs from the tree read by TreeList.get into the "
+                      "array's namespace (%d vs %d splits; e.g. %s)" % (i, len(got), len(want), diff))
             return
         w = 1.0 if tree.weight is None else float(tree.weight)
         if Fraction(ta._tree_weights[i]) != Fraction(w):
             case.fail("route", "TreeArray.read", "weight of tree %d recorded as %s, the tree has %s" % (i, ta._tree_weights[i], tree.weight))
             return
+
+
+def check_refused_by_list_only(ctx, dendropy, doc, kind="route-error"):
+    """TreeList.get refuses the source: then the data set and the iterator must refuse it too"""
+    schema, text, opts = doc["schema"], doc["text"], doc["opts"]
+    ok = []
+    for name, fn in (("DataSet.get", lambda: dendropy.DataSet.get(data=text, schema=schema, **opts)),
+                     ("Tree.yield_from_files", lambda: list(dendropy.Tree.yield_from_files([io.StringIO(text)], schema, **opts)))):
+        try:
+            with time_limit(ROUTE_TIMEOUT):
+                fn()
+            ok.append(name)
+        except Exception:
+            pass
+    if len(ok) == 2:
+        try:
+            dendropy.TreeList.get(data=text, schema=schema, **opts)
+            return
+        except Exception as e:
+            Case(ctx, doc, "fresh").fail(kind, "TreeList.get", "raises %s (%s) although %s read the source" % (
+                type(e).__name__, str(e)[:120], " and ".join(ok)), probe="refused-by-list-only")
 
 
 def check_shared_identity(ctx, dendropy, docA, docB, tmpdir):
@@ -881,6 +930,7 @@ def one_document(ctx, dendropy, doc, tmpdir, session, full=True, kind=None):
     if res[0] is None:
         ctx.count("unreadable:" + str(res[1]))
         ctx.case([doc["schema"], doc["text"], doc["opts"]], False, kind="unreadable")
+        check_refused_by_list_only(ctx, dendropy, doc)
         return None
     case, ref, blocks = res
     shape = None if blocks is None else [len(b) for b in blocks]
@@ -962,8 +1012,11 @@ def replay(ctx, rec):
         if "char_opts" in c:
             doc["char_opts"] = c["char_opts"]
         session = ModelSession(ctx)
+        n0 = len(ctx.failures)
         if c.get("route_kind") == "matrix":
             check_matrices(ctx, dendropy, doc, tmpdir)
+        elif c.get("probe") == "refused-by-list-only":
+            check_refused_by_list_only(ctx, dendropy, doc, rec.get("kind") or "route-error")
         elif c.get("first") is not None:
             docA = {"schema": c["schema"], "text": c["first"], "opts": c.get("opts", {})}
             check_shared_identity(ctx, dendropy, docA, doc, tmpdir)
@@ -975,6 +1028,9 @@ def replay(ctx, rec):
                 blocks = res[2]
                 correspond(ctx, dendropy, doc, session, None if blocks is None else [len(b) for b in blocks])
         session.flush()
+        if c.get("first") is not None and rec.get("kind"):
+            for f in ctx.failures[n0:]:
+                f["kind"] = rec["kind"]       # a stored two-source witness names the class of its failure
         # keep only the failures of the recorded route, if the record names one
         if c.get("route"):
             keep = [f for f in ctx.failures if f["replay"].get("route") == c["route"]]
